@@ -70,6 +70,10 @@ def cases(tier, seed):
     for stage in (1, 2, 3):
         for scale in (0.7, 1.25):
             yield "otherpsf", dict(stage=stage, scale=scale)
+    # position angles quoted in another convention (0..180, 0..360, below -90): the same ellipse, the same answers
+    for stage in (1, 2, 3):
+        for pas in ([120.0, 215.0], [-135.0, 100.0], [179.5, 270.0], [360.0, -180.0]):
+            yield "paconv", dict(stage=stage, pas=pas)
     yield "many", dict()
 
 
@@ -375,6 +379,33 @@ def ev_nopsf(case, ctx):
     check_against_truth(out, cat, truth, hdr, case["stage"], ctx, sig, sig)
 
 
+def ev_paconv(case, ctx):
+    d = os.environ["VERIF_SCRATCH"]
+    hdr = hdr_()
+    srcs = [skygauss.source_at_pixel(hdr, 40.3, 44.1, 1.0, 7.0, 3.2, case["pas"][0]),
+            skygauss.source_at_pixel(hdr, 70.2, 20.4, -0.6, 6.0, 3.4, case["pas"][1])]
+    cat = [to_component(s, hdr, k) for k, s in enumerate(srcs)]
+    truth = {c.uuid: s for c, s in zip(cat, srcs)}
+    f = os.path.join(d, "c05a.fits")
+    scenes.write_image(f, hdr, skygauss.render(hdr, SHAPE, srcs))
+    for regroup in (True, False):
+        sig = "paconv:stage=%d,pa=%r,regroup=%s" % (case["stage"], case["pas"], regroup)
+        ctx.count("paconv")
+        ctx.nontrivial(sig)
+        try:
+            out = run(f, cat, stage=case["stage"], doregroup=regroup)
+        except Exception as e:
+            ctx.violation("priorized fit raised %r (%s)" % (e, sig), "raise|" + sig)
+            continue
+        ctx.outcome("paconv_n=%d" % len(out))
+        check_against_truth(out, cat, truth, hdr, case["stage"], ctx, sig, sig)
+        if case["stage"] == 3:
+            for s_ in out:
+                c_ = [c for c in cat if c.uuid == s_.uuid]
+                if c_ and scenes.pa_diff(s_.pa, c_[0].pa) > 0.05:
+                    ctx.violation("stage 3: position angle of %s = %.4f, catalogue %.4f (same ellipse modulo 180) (%s)" % (s_.uuid, s_.pa, c_[0].pa, sig), "pa|" + sig)
+
+
 def ev_otherpsf(case, ctx):
     d = os.environ["VERIF_SCRATCH"]
     hdr = hdr_()
@@ -426,4 +457,4 @@ def ev_many(case, ctx):
 
 
 def evaluate(clause, case, ctx):
-    dict(single=ev_single, edges=ev_edges, permutations=ev_permutations, badrows=ev_badrows, badrows_in_group=ev_badrows_in_group, nopsf=ev_nopsf, many=ev_many, otherpsf=ev_otherpsf)[clause](case, ctx)
+    dict(single=ev_single, edges=ev_edges, permutations=ev_permutations, badrows=ev_badrows, badrows_in_group=ev_badrows_in_group, nopsf=ev_nopsf, many=ev_many, otherpsf=ev_otherpsf, paconv=ev_paconv)[clause](case, ctx)
